@@ -80,11 +80,42 @@ def lookup_unit(reg_defs, text):
 
 
 class Fmt(SStr):
-    """Result of 'literal {} {}'.format(a, b): remembered so that UnitRegistry.define can read it."""
+    """Result of 'literal {} {}'.format(a, b): remembered so that UnitRegistry.define can read it.  `rendered` is the
+    formatted text with every non-string argument replaced by a marker \x00<n>\x00 (values[n] is the argument); None
+    when a field carries a format spec / conversion on a non-string (the digits written are then not the value)."""
 
-    def __init__(self, template, args):
+    def __init__(self, template, args, kwargs=None):
+        import string
         self.template = template
         self.args = list(args)
+        self.values = []
+        out, auto = [], 0
+        try:
+            for lit, field, spec, conv in string.Formatter().parse(template):
+                out.append(lit)
+                if field is None:
+                    continue
+                if field == '':
+                    key, auto = auto, auto + 1
+                elif field.isdigit():
+                    key = int(field)
+                else:
+                    key = field
+                v = self.args[key] if isinstance(key, int) else (kwargs or {})[key]
+                if isinstance(v, Fmt) and v.rendered is not None and not spec and not conv:
+                    base = len(self.values)
+                    self.values.extend(v.values)
+                    out.append(re.sub('\x00(\\d+)\x00', lambda m: '\x00%d\x00' % (int(m.group(1)) + base), v.rendered))
+                elif isinstance(v, str) and not spec and conv in (None, 's'):
+                    out.append(v)
+                elif isinstance(v, bool) or v is None or isinstance(v, SStr) or spec or conv:
+                    raise ValueError('not a plain value')
+                else:
+                    out.append('\x00%d\x00' % len(self.values))
+                    self.values.append(v)
+            self.rendered = ''.join(out)
+        except (ValueError, IndexError, KeyError, TypeError):
+            self.rendered = None
 
 
 def install(ip, M, I):
@@ -107,7 +138,10 @@ def install(ip, M, I):
     def _format(ip, args, kw):
         tpl = args[0]
         if isinstance(tpl, str):
-            return Fmt(tpl, args[1:])
+            f = Fmt(tpl, args[1:], kw)
+            if f.rendered is not None and not f.values:
+                return f.rendered          # every argument was a concrete string: an ordinary string
+            return f
         return SStr()
 
 
@@ -120,20 +154,24 @@ def reg_getattr(ip, reg, name, I):
 
 
 def reg_define(ip, reg, spec, I):
-    if not isinstance(spec, Fmt):
+    if isinstance(spec, str):
+        spec = Fmt(spec.replace('{', '{{').replace('}', '}}'), [])
+    if not isinstance(spec, Fmt) or spec.rendered is None:
         raise Unsupported('UnitRegistry.define of a string the executor cannot read')
-    m = re.match(r'^\s*(\w+)\s*=\s*\{\}\s*\{\}\s*=\s*(\w+)\s*$', spec.template)
-    if not m or len(spec.args) != 2:
+    m = re.match('^\\s*(\\w+)\\s*=\\s*(\x00\\d+\x00|[-+0-9.eE]+)\\s+([^=\x00]+?)\\s*=\\s*(\\w+)\\s*$', spec.rendered)
+    if not m:
         raise Unsupported('UnitRegistry.define(%r)' % spec.template)
-    val, unit_text = spec.args
-    if not isinstance(unit_text, str):
-        raise Unsupported('symbolic unit string')
+    if m.group(2).startswith('\x00'):
+        val = spec.values[int(m.group(2).strip('\x00'))]
+    else:
+        val = Fraction(m.group(2))
+    unit_text = m.group(3)
     base = lookup_unit(reg.defs, unit_text)
     if base.offset != 0:
         raise Unsupported('offset unit in a definition')
     u = Unit(mk_mul(to_real(val) if is_sym(val) else val, base.scale), base.dims, 0, m.group(1))
     reg.defs[m.group(1)] = u
-    reg.defs[m.group(2)] = u
+    reg.defs[m.group(4)] = u
     return None
 
 
